@@ -24,6 +24,8 @@
 //!        spec = comma separated memo definitions x<c><src> (src*c) a<c><src> (src+c) d<c><src> (src/c)
 //!        p<src><src> (sum, read in that order), <src> = s | m<i>; gates = m (the memo:* points incl.
 //!        memo:cleared / memo:unlocked) and/or l (sources:clearing); needs hooks/yield_points_v2.patch; prog ops g<i> (memo i .get) s<v> (set)
+//!   imm <spec> <prog>                                    single thread: an `ImmediateEffect` reading the last memo of
+//!        the graph <spec> (see `graph`), then the ops s<v> / g<i>; a hang is `fail hang`
 //!   sig <prog>/<prog>[/<prog>] <sched>                   plain signal (initially 1), no hooks: prog ops
 //!        r (get) s<v> (set) w<v> .. u (one `sig.update(|n| { *n = v; <the ops up to u> })`: the closure runs
 //!        with the value write-locked, as every update does)
@@ -1395,6 +1397,110 @@ mod real {
         format!("{out} ## {verdict}")
     }
 
+    // ------------------------------------------------------------ scenario: imm
+
+    /// single thread: an `ImmediateEffect` (runs synchronously inside `mark_check` / `mark_dirty`) that reads
+    /// the LAST memo of the graph and logs what it read; ops `s<v>` (set the signal) and `g<i>`.  A hang
+    /// (the thread never comes back from an op) is reported through the engine's blocked-thread detection.
+    fn run_imm(defs: &[GDef], prog: &[GOp]) -> String {
+        use reactive_graph::effect::ImmediateEffect;
+        let mut eng = Engine::new(vec![vec![]]);
+        let log: Arc<Mutex<Vec<u64>>> = Arc::new(Mutex::new(vec![]));
+        let res: Arc<Mutex<Vec<String>>> = Arc::new(Mutex::new(vec![]));
+        let fin: Arc<Mutex<Option<String>>> = Arc::new(Mutex::new(None));
+        {
+            let defs = defs.to_vec();
+            let prog = prog.to_vec();
+            let (log, res, fin) = (log.clone(), res.clone(), fin.clone());
+            eng.spawn(0, move || {
+                let owner = Owner::new();
+                owner.set();
+                let sig = ArcRwSignal::new(1u64);
+                let mut memos: Vec<ArcMemo<u64>> = vec![];
+                for d in &defs {
+                    let srcs: Vec<Option<ArcMemo<u64>>> =
+                        d.reads.iter().map(|s| match s { GSrc::Memo(j) => Some(memos[*j].clone()), GSrc::Sig => None }).collect();
+                    let sig = sig.clone();
+                    let f = d.f;
+                    memos.push(ArcMemo::new(move |_| {
+                        let a: Vec<u64> = srcs.iter().map(|m| match m { Some(m) => m.get(), None => sig.get() }).collect();
+                        apply_fn(f, &a)
+                    }));
+                }
+                if yield_here("h:start") {
+                    return;
+                }
+                let watched = memos.last().unwrap().clone();
+                let effect = {
+                    let log = log.clone();
+                    ImmediateEffect::new(move || {
+                        let v = watched.get();
+                        log.lock().unwrap().push(v);
+                    })
+                };
+                for op in &prog {
+                    let r = match *op {
+                        GOp::Get(j) => match catch_unwind(AssertUnwindSafe(|| memos[j].get_untracked())) {
+                            Ok(v) => v.to_string(),
+                            Err(_) => "panic".into(),
+                        },
+                        GOp::Set(v) => match catch_unwind(AssertUnwindSafe(|| sig.set(v))) {
+                            Ok(()) => ".".into(),
+                            Err(_) => "panic".into(),
+                        },
+                    };
+                    res.lock().unwrap().push(r);
+                }
+                let f: Vec<String> = memos.iter().map(|m| m.get_untracked().to_string()).collect();
+                *fin.lock().unwrap() = Some(format!("{}:{}", f.join(","), sig.get_untracked()));
+                drop(effect);
+                drop(owner);
+            });
+        }
+        eng.wait_all_started();
+        eng.run(&[0], &|_, _| false);
+        let dead = eng.hang || !eng.finished(0);
+        let r = res.lock().unwrap().clone();
+        let mut parts = r.clone();
+        for _ in r.len()..prog.len() {
+            parts.push("?".into());
+        }
+        let l: Vec<String> = log.lock().unwrap().iter().map(|v| v.to_string()).collect();
+        let f = fin.lock().unwrap().clone();
+        eng.release();
+        // oracle: the effect saw the watched memo's from-scratch value after every completed write,
+        // exactly once per change
+        let mut want: Vec<u64> = vec![*scratch(defs, 1).last().unwrap()];
+        for o in prog {
+            if let GOp::Set(v) = o {
+                let w = *scratch(defs, *v).last().unwrap();
+                if *want.last().unwrap() != w {
+                    want.push(w);
+                }
+            }
+        }
+        let want: Vec<String> = want.iter().map(|v| v.to_string()).collect();
+        // compared observable: op results, the LAST value the effect logged, final values.  (How often the
+        // synchronous effect runs during one propagation, and which intermediate values it sees, is not
+        // C19's subject; the full log goes to the `##` detail only.)
+        let out = format!(
+            "p0={} last={} fin={}",
+            if parts.is_empty() { "-".into() } else { parts.join(",") },
+            l.last().cloned().unwrap_or("-".into()),
+            f.clone().unwrap_or("-".into())
+        );
+        let verdict = if dead || f.is_none() {
+            "fail hang".to_string()
+        } else if r.iter().any(|x| x == "panic") {
+            "fail memo-read-panic".to_string()
+        } else if l.last() != want.last() {
+            "fail effect-stale".to_string()
+        } else {
+            format!("ok log={}", l.join(","))
+        };
+        format!("{out} ## {verdict}")
+    }
+
     // ------------------------------------------------------------ scenario: sig
 
     #[derive(Clone, Copy, PartialEq, Debug)]
@@ -1693,6 +1799,14 @@ mod real {
                 }
                 run_graph(&defs, clean, gates, &progs, &s)
             }
+            ["imm", spec, prog] => {
+                let Some(defs) = parse_graph(spec) else { return "bad-op".into() };
+                let Some(prog) = parse_gprog(prog, defs.len()) else { return "bad-op".into() };
+                if prog.len() > 6 {
+                    return "bad-op".into();
+                }
+                run_imm(&defs, &prog)
+            }
             ["sig", progs, s] => {
                 let progs: Option<Vec<Vec<SOp>>> = progs.split('/').map(parse_sprog).collect();
                 let (Some(progs), Some(s)) = (progs, parse_sched(s)) else { return "bad-op".into() };
@@ -1827,6 +1941,13 @@ fn gen(seed: u64, n: usize, path: &str, tier: &str) -> std::io::Result<()> {
     ] {
         for s in all_interleavings(&counts) {
             emit(&mut f, "sig2", format!("sig {progs} {s}"))?;
+        }
+    }
+    // single thread, an ImmediateEffect on a memo / memo chain / diamond (F-C19-9: self-deadlock before 0488c9f)
+    for spec in ["x2s", "d2s", "a1s,a1m0", "d2s,x3m0,a1m1", "x0s,a1s,pm0m1", "a0s,d100m0,pm1m0", "a1s,a2s,pm0m1,x3m2"] {
+        let k = spec.split(',').count();
+        for prog in ["s2", "s2,s2,s3", "s1", format!("g{},s5,g{}", k - 1, k - 1).as_str(), "s300,s301,s2", "-"] {
+            emit(&mut f, "imm", format!("imm {spec} {prog}"))?;
         }
     }
     // concurrent notify_subs on one async derived; awaiting a loaded derived while it is written
